@@ -44,7 +44,9 @@ var c14Names = []string{"/opt/a", "/etc/conf", "/srv/q/r-s", "/var/x", "/media/u
 	// next to the documented noise paths, but not on them
 	"/usr/lib/firefox/libxul.so", "/usr/lib64/gcc/x/liby.so.1", "/usr/libx/foo.so", "/etc/ssl/x.so", "/usr/share/local/x",
 	// names with a counterpart that the path generalisation maps to the same pattern
-	"/home/alice/x", "/proc/4242/stat", "/run/user/1000/bus"}
+	"/home/alice/x", "/proc/4242/stat", "/run/user/1000/bus",
+	// printf verbs: the listing must print values, not interpret them
+	"/opt/My%20File%d.pdf", "/srv/100%sure"}
 
 // c14Twin: a different name that is generalised to the same pattern. Two records that differ in
 // nothing else are still two accesses: only repeats identical up to timestamp and pid may be dropped.
@@ -414,6 +416,19 @@ func TestC14_Binary(t *testing.T) {
 			want, have := c.expected(), tokensIn(out1)
 			if strings.Join(want, " ") != strings.Join(have, " ") {
 				oerr = fmt.Errorf("aa-log %v shows the wrong events\n  want %v\n  got  %v\n%s", args[2:], want, have, c.describe())
+			}
+			// the values are printed as they are
+			if oerr == nil {
+				plain := stripANSI(out1)
+				exp := map[string]bool{}
+				for _, tk := range want {
+					exp[tk] = true
+				}
+				for _, it := range c.Items {
+					if it.Kind == "rec" && !it.Dbus && exp[it.Token] && strings.Contains(it.Name, "%") && !strings.Contains(plain, it.Name) {
+						oerr = fmt.Errorf("aa-log %v does not print the name %q of a reported record as it is\n--- output\n%s", args[2:], it.Name, abbreviate(plain))
+					}
+				}
 			}
 		}
 		if oerr != nil {
